@@ -233,4 +233,92 @@ def busTrace : Bus → List (Nat × Op) → List (Nat × Outcome × List Wr × T
 /-- the operations of a bus history that address terminal `i` -/
 def opsOf (i : Nat) (os : List (Nat × Op)) : List Op := (os.filter (·.1 == i)).map (·.2)
 
+/-! ### mappings started concurrently: `map_fmmu` cut at every await
+
+`map_fmmu` is a coroutine.  Between two awaits it runs without interruption; at `await self.write(...)` other tasks run —
+in particular other mappings of the same terminal (two sync groups that share a terminal and are started together).
+The pieces of one mapping:
+
+* `begin`: everything up to the first await — the slot is chosen **and recorded**, then the activation write is issued
+  (or `.index(None)` raises and nothing happened);
+* `ack` while entering: the write came back (`__aenter__` returns the index) or the await raised — the write failed or
+  the task was cancelled while it waited (`finally` frees the slot);
+* `leave`: the body ended — normally (the de-activation write is issued) or by an exception (`finally` at once);
+* `ack` while closing: the de-activation write came back or raised; `finally` frees the slot.
+
+A mapping holds its FMMU from `begin` until `finally` ran: `St.live` lists exactly these mappings (entering, in the body,
+closing), `phase` their serial number and where they stand.  `step` is the special case in which every `begin` is
+followed at once by its `ack` (`cstep_seq_enter`, `cstep_seq_exit` in `Ebv.Props.C20`). -/
+
+inductive Phase | entering | body | closing
+deriving Repr, DecidableEq
+
+structure CSt where
+  st : St                          -- slot table; the mappings that hold an FMMU, in order of `begin`
+  phase : List (Nat × Phase)       -- aligned with `st.live`: serial number of the mapping, where it stands
+  next : Nat                       -- serial number of the next mapping
+deriving Repr, DecidableEq
+
+inductive Ev where
+  | begin (write : Bool) (logical : Nat)
+  | ack (id : Nat) (ok : Bool)
+  | leave (id : Nat) (exc : Bool)
+deriving Repr, DecidableEq
+
+inductive COut where
+  | waiting                -- suspended in a register write
+  | done (o : Outcome)     -- `__aenter__` / `__aexit__` returned or raised
+deriving Repr, DecidableEq
+
+def cinit (n : Nat) : CSt := { st := init n, phase := [], next := 0 }
+
+/-- position of mapping `id` among the holders -/
+def posOf (c : CSt) (id : Nat) : Nat := c.phase.findIdx (·.1 == id)
+
+/-- `finally` of the holder at position `k` -/
+def release (cfg : Cfg) (c : CSt) (k : Nat) : CSt :=
+  { c with st := (step cfg c.st (.exit k .exc)).1, phase := c.phase.eraseIdx k }
+
+def beginResult (c : CSt) (r : St × Outcome × List Wr) : CSt × COut × List Wr :=
+  match r.2.1 with
+  | .entered _ => ({ st := r.1, phase := c.phase ++ [(c.next, .entering)], next := c.next + 1 }, .waiting, r.2.2)
+  | o => ({ c with next := c.next + 1 }, .done o, [])
+
+def ackResult (cfg : Cfg) (c : CSt) (k : Nat) (ok : Bool) : Option ((Nat × Phase) × Live) → CSt × COut × List Wr
+  | some ((id, .entering), m) =>
+    if ok then ({ c with phase := c.phase.set k (id, .body) }, .done (.entered m.index), [])
+    else (release cfg c k, .done .busError, [])
+  | some ((_, .closing), _) => (release cfg c k, .done (if ok then .exited else .busError), [])
+  | _ => (c, .done .noop, [])
+
+def leaveResult (cfg : Cfg) (c : CSt) (k : Nat) (exc : Bool) : Option ((Nat × Phase) × Live) → CSt × COut × List Wr
+  | some ((id, .body), m) =>
+    if exc then (release cfg c k, .done .exited, [])
+    else ({ c with phase := c.phase.set k (id, .closing) }, .waiting, [deactivateWr m.index])
+  | _ => (c, .done .noop, [])
+
+def holder (c : CSt) (k : Nat) : Option ((Nat × Phase) × Live) :=
+  match c.phase[k]?, c.st.live[k]? with
+  | some p, some m => some (p, m)
+  | _, _ => none
+
+def cstep (cfg : Cfg) (c : CSt) : Ev → CSt × COut × List Wr
+  | .begin w l => beginResult c (step cfg c.st (.enter w l false))
+  | .ack id ok => ackResult cfg c (posOf c id) ok (holder c (posOf c id))
+  | .leave id exc => leaveResult cfg c (posOf c id) exc (holder c (posOf c id))
+
+def crun (cfg : Cfg) : CSt → List Ev → CSt
+  | c, [] => c
+  | c, e :: es => crun cfg (cstep cfg c e).1 es
+
+def ctrace (cfg : Cfg) : CSt → List Ev → List (COut × List Wr × Table)
+  | _, [] => []
+  | c, e :: es =>
+    let r := cstep cfg c e
+    (r.2.1, r.2.2, r.1.st.table) :: ctrace cfg r.1 es
+
+/-- the mappings whose body is running -/
+def CSt.inBody (c : CSt) : List Live :=
+  ((c.phase.zip c.st.live).filter (·.1.2 == .body)).map (·.2)
+
 end Ebv.Fmmu
